@@ -226,3 +226,27 @@ package retry
 //@   opaque-callee String
 //@   ensures free: regionErr == nil || (regionErr.EpochNotMatch != nil && len(regionErr.EpochNotMatch.CurrentRegions) > 0) ==> result == nil && (bo != nil ==> bo.totalSleep == old(bo.totalSleep))
 //@   ensures paid: regionErr != nil && !(regionErr.EpochNotMatch != nil && len(regionErr.EpochNotMatch.CurrentRegions) > 0) && result == nil ==> bo.backoffTimes[BoRegionMiss.name] == old(bo.backoffTimes[BoRegionMiss.name]) + 1
+
+// Building and adjusting a back-off kind: the constructors record exactly what they are given; SetErrors / SetBackoffFnCfg
+// replace one field and leave the others; a kind's excluded-sleep bound can only be changed for a kind that is excluded
+// already (no kind becomes excluded from the budget by a configuration call).
+//@ func NewBackoffFnCfg
+//@   prop C20
+//@   ensures result != nil && result.base == base && result.cap == cap && result.jitter == jitter
+//@ func NewConfig
+//@   prop C20
+//@   ensures result != nil && result.name == name && result.fnCfg == backoffFnCfg && result.err == err
+//@ func (c *Config) Base
+//@   prop C20
+//@   may-panic
+//@   ensures result == c.fnCfg.base
+//@ func (c *Config) SetErrors
+//@   prop C20
+//@   ensures c.err == err && c.name == old(c.name) && c.fnCfg == old(c.fnCfg)
+//@ func (c *Config) SetBackoffFnCfg
+//@   prop C20
+//@   ensures c.fnCfg == fnCfg && c.name == old(c.name) && c.err == old(c.err)
+//@ func setBackoffExcluded
+//@   prop C20
+//@   ensures same: forall n string :: inDom(isSleepExcluded, n) <==> old(inDom(isSleepExcluded, n))
+//@   ensures set: inDom(isSleepExcluded, name) ==> isSleepExcluded[name] == maxVal
